@@ -154,6 +154,46 @@ def _c07_var_named_var():
     return None
 
 
+def _c07_registered(name):
+    """outcomes of opening a tag registered under `name` in the three syntaxes (the registry is left as it was)"""
+    from DocumentTemplate import HTML, String
+
+    class Tag:
+        def __init__(self, args):
+            pass
+
+        def __call__(self, md):
+            return 'T'
+    Tag.name = name
+    saved = dict(String.commands)
+    String.commands[name] = Tag
+    outs = {}
+    try:
+        for lab, cls, src in (('dtml', HTML, '<dtml-%s x>'), ('ssi', HTML, '<!--#%s x-->'), ('epfs', String, '%%(%s x)[')):
+            try:
+                outs[lab] = cls(src % name)()
+            except Exception as e:  # noqa
+                outs[lab] = '%s: %s' % (type(e).__name__, str(e).split(',')[0])
+    finally:
+        String.commands.clear()
+        String.commands.update(saved)
+    return outs
+
+
+def _c07_tag_name_end_prefix():
+    o = _c07_registered('endive')
+    if o['dtml'] == 'T' and o['epfs'] == 'T' and o['ssi'] != 'T':
+        return dict(o, input="String.commands['endive'] = Tag; <dtml-endive x> / <!--#endive x--> / %(endive x)[")
+    return None
+
+
+def _c07_tag_name_nonletter():
+    o = _c07_registered('h1')
+    if o['epfs'] == 'T' and o['dtml'] != 'T' and o['ssi'] != 'T':
+        return dict(o, input="String.commands['h1'] = Tag; <dtml-h1 x> / <!--#h1 x--> / %(h1 x)[")
+    return None
+
+
 def _c02_falsy_mapping():
     from DocumentTemplate import HTML
 
@@ -213,7 +253,8 @@ PROBES = {
     'C05': [('C05-tree-sort-key', _c05_tree_sort_key), ('C05-tree-id', _c05_tree_id),
             ('C05-tree-expand-all', _c05_tree_expand_all)],
     'C16': [('C16-index-column', _c16_index_column), ('C16-hyphen-column', _c16_hyphen_column)],
-    'C07': [('C07-var-named-var', _c07_var_named_var)],
+    'C07': [('C07-var-named-var', _c07_var_named_var), ('C07-tag-name-end-prefix', _c07_tag_name_end_prefix),
+            ('C07-tag-name-nonletter', _c07_tag_name_nonletter)],
     'C02': [('C02-falsy-mapping', _c02_falsy_mapping)],
     'C20': [('C20-surrogate-pair-id', _c20_surrogate_pair_id), ('C20-bytes-id', _c20_bytes_id)],
 }
